@@ -1,6 +1,7 @@
 import Frp.Driver.Proto
 import Frp.Engines.Release
 import Frp.Props.C10
+import Frp.Props.C10Drop
 /-
   Driver engine "regrace" (C10): replays the harness trace of concurrently running registrations on
   Frp/Model/RegSteps.lean.  Besides the exact comparison with the model, every answer of the
@@ -11,12 +12,33 @@ import Frp.Props.C10
 -/
 namespace Frp
 namespace Engines
-open Proto Release RegSteps
+open Proto Release RegSteps SessDrop
 
 structure RrState where
   s   : CState := CState.init 0
+  /-- sessions whose control connection was dropped while their registration is parked (Frp/Model/SessDrop.lean) -/
+  ending : List Nat := []
   /-- the implementation's own account: built only from its answers -/
   acct : CState := CState.init 0
+  /-- sessions the implementation answered `pending` for and not yet `gone` -/
+  acctEnding : List Nat := []
+
+def RrState.d (st : RrState) : DState := { c := st.s, ending := st.ending }
+
+def rrDRes : DRes → String
+  | .r x => match x with
+    | .parked .checked => "at:checked"
+    | .parked .ran => "at:ran"
+    | .ok => "ok"
+    | .quota => "err:quota"
+    | .exists_ => "err:exists"
+    | .conflict _ => "err:conflict"
+    | .inuse => "err:inuse"
+    | .busy => "busy"
+    | .noflight => "noflight"
+    | .done => "-"
+  | .pending => "pending"
+  | .gone => "gone"
 
 def rrNumSessions : Nat := 3
 
@@ -99,37 +121,51 @@ def regraceStep (st : RrState) (tok : List String) (impl : String) : RrState × 
         else if impl = "err:exists" then acc.nameTaken nm
         else if impl = "at:checked" then !C10.Conc.quotaRefusalJustified acc sid n && !acc.nameTaken nm
         else impl = "busy"
-      ({ s := s', acct := rrRecBegin st.acct sid nm keys n impl }, verdictOf (rrRes res) impl (some prop))
+      ({ st with s := s', acct := rrRecBegin st.acct sid nm keys n impl }, verdictOf (rrRes res) impl (some prop))
     | _, _ => (st, .bad "begin")
   | ["step", sid] =>
     match sid.toNat? with
     | some sid =>
-      let (s', res) := st.s.step sid
+      let (d', res) := st.d.step sid
       let acc := C10.Conc.accounted st.acct
       let prop : Bool :=
         match st.acct.flights.find? (fun f => f.sid = sid) with
         | none => impl = "noflight"
         | some f =>
           if impl = "at:ran" then f.pc = .checked && C10.Conc.keysFree acc f.keys
+          else if impl = "gone" then st.acctEnding.contains sid    -- the session's end was pending
+          else if st.acctEnding.contains sid then false            -- a closed connection delivers no answer
           else if impl = "err:conflict" then f.pc = .checked && !C10.Conc.keysFree acc f.keys
           else if impl = "ok" then f.pc = .ran && !acc.nameTaken f.name
           else if impl = "err:inuse" then f.pc = .ran && acc.nameTaken f.name
           else false
-      ({ s := s', acct := rrRecStep st.acct sid impl }, verdictOf (rrRes res) impl (some prop))
+      -- `gone`: whatever the registration's outcome, the session's teardown ran after it: nothing of the
+      -- session is accounted for any more
+      let acct' := if impl = "gone" then
+          { rrRecEnd st.acct sid with flights := st.acct.flights.filter (fun f => f.sid ≠ sid) }
+        else rrRecStep st.acct sid impl
+      let ae := if impl = "gone" then st.acctEnding.filter (· ≠ sid) else st.acctEnding
+      ({ s := d'.c, ending := d'.ending, acct := acct', acctEnding := ae }, verdictOf (rrDRes res) impl (some prop))
     | none => (st, .bad "step")
   | ["close", sid, name] =>
     match sid.toNat? with
     | some sid =>
       let (s', res) := st.s.close sid (Str.ofString name)
       let acct' := if impl = "-" then rrRecClose st.acct sid (Str.ofString name) else st.acct
-      ({ s := s', acct := acct' }, verdictOf (rrRes res) impl)
+      ({ st with s := s', acct := acct' }, verdictOf (rrRes res) impl)
     | none => (st, .bad "close")
   | ["endsess", sid] =>
     match sid.toNat? with
     | some sid =>
-      let (s', res) := st.s.sessionEnd sid
+      let (d', res) := st.d.drop sid
       let acct' := if impl = "-" then rrRecEnd st.acct sid else st.acct
-      ({ s := s', acct := acct' }, verdictOf (rrRes res) impl)
+      let ae := if impl = "pending" && !st.acctEnding.contains sid then sid :: st.acctEnding else st.acctEnding
+      -- `pending` is only justified while a registration of the session is in flight
+      let prop : Bool :=
+        if impl = "pending" then st.acct.flights.any (fun f => f.sid = sid)
+        else if impl = "-" then !st.acct.flights.any (fun f => f.sid = sid)
+        else false
+      ({ s := d'.c, ending := d'.ending, acct := acct', acctEnding := ae }, verdictOf (rrDRes res) impl (some prop))
     | none => (st, .bad "endsess")
   | ["view"] =>
     -- exact comparison with the model; the property is judged on the implementation's dump against
